@@ -13,7 +13,8 @@ LEVEL = "exploration"
 SHARDS = {"quick": 8, "thorough": 16}
 RULE = (
     "histories: a C15 message stream (<= 30 messages over the small device/property/element universe) interleaved with callback "
-    "registrations and removals at arbitrary stream positions; callbacks have every combination of device/vector/element filter "
+    "registrations and removals and with client writes (assign + submit: no event, mirror unchanged) at arbitrary stream "
+    "positions; callbacks have every combination of device/vector/element filter "
     "(absent, matching, non-matching) and event type (any, value, state, definition), are plain or coroutine functions - given as a "
     "function, a functools.partial, a bound method or a callable object -, may raise, "
     "may remove themselves when first called (one-shot), and are removed by id or by criteria. 2-5 callbacks are registered up "
